@@ -90,6 +90,7 @@ func runC11(c *core.Ctx) {
 	}
 	pay := &codecs.VP8Payloader{EnablePictureID: picID}
 	rx := &codecs.VP8Packet{}
+	rx.SetZeroAllocation(t.Chance(1, 4)) // an option like any other: decoding must not depend on it
 	mtu := 5 + []int{7, 0, 1, 3, 30, 1195}[t.Intn(6)] + t.Intn(3)
 	nframes := 1 + t.Intn(60)
 	if t.Chance(1, 8) {
@@ -274,12 +275,15 @@ func runC11(c *core.Ctx) {
 func runC11Foreign(c *core.Ctx) {
 	t := c.T
 	n := 1 + t.Intn(12)
+	zeroAlloc := t.Chance(1, 4)
 	long := &codecs.VP8Packet{} // the statement does not say "fresh": a receiver with a history must decode the same values
+	long.SetZeroAllocation(zeroAlloc)
 	for k := 0; k < n; k++ {
 		d, desc := genVP8Desc(t)
 		payload := t.Bytes(t.Intn(20))
 		pkt := append(append([]byte{}, desc...), payload...)
 		rx := &codecs.VP8Packet{}
+		rx.SetZeroAllocation(zeroAlloc)
 		if k%2 == 1 {
 			rx = long
 		}
@@ -323,6 +327,7 @@ func runC11Foreign(c *core.Ctx) {
 		// the truncating link: every cut inside the descriptor must be rejected
 		for cut := 0; cut < len(desc); cut++ {
 			rx2 := &codecs.VP8Packet{}
+			rx2.SetZeroAllocation(zeroAlloc)
 			var e2 error
 			trunc := append([]byte{}, pkt[:cut]...)
 			if c.Guard("codecs.VP8Packet.Unmarshal", func() { _, e2 = rx2.Unmarshal(trunc) }) {
@@ -376,6 +381,7 @@ func runC12(c *core.Ctx) {
 	init := drawPicID(t)
 	pay := &codecs.VP9Payloader{FlexibleMode: flex, InitialPictureIDFn: func() uint16 { return init }}
 	rx := &codecs.VP9Packet{}
+	rx.SetZeroAllocation(t.Chance(1, 4))
 	minMTU := 12
 	if flex {
 		minMTU = 4
@@ -516,12 +522,15 @@ func runC12(c *core.Ctx) {
 func runC12Foreign(c *core.Ctx) {
 	t := c.T
 	n := 1 + t.Intn(10)
+	zeroAlloc := t.Chance(1, 4)
 	long := &codecs.VP9Packet{} // a receiver with a history must decode the same values as a fresh one
+	long.SetZeroAllocation(zeroAlloc)
 	for k := 0; k < n; k++ {
 		d, desc := genVP9Desc(t)
 		payload := t.Bytes(t.Intn(16))
 		pkt := append(append([]byte{}, desc...), payload...)
 		rx := &codecs.VP9Packet{}
+		rx.SetZeroAllocation(zeroAlloc)
 		if k%2 == 1 {
 			rx = long
 		}
@@ -564,6 +573,7 @@ func runC12Foreign(c *core.Ctx) {
 		}
 		for cut := 0; cut < len(desc); cut++ {
 			rx2 := &codecs.VP9Packet{}
+			rx2.SetZeroAllocation(zeroAlloc)
 			var e2 error
 			trunc := append([]byte{}, pkt[:cut]...)
 			if c.Guard("codecs.VP9Packet.Unmarshal", func() { _, e2 = rx2.Unmarshal(trunc) }) {
